@@ -62,6 +62,7 @@ type Server struct {
 	nconn  int
 	serial int64
 	closed bool
+	gen    int // bumped by ResetLog
 
 	// Handler is called (in the connection's reader goroutine) for every request; it may
 	// use the Conn* methods of the server, typically from goroutines it starts itself.
@@ -216,11 +217,20 @@ func (s *Server) WriteRaw(conn int, b []byte, id int32, serial int64, kind strin
 	if c == nil {
 		return fmt.Errorf("no such connection")
 	}
-	at := time.Now()
-	_, err := c.Write(b)
+	// logged before the write: the peer may react to the packet before Write returns
 	s.mu.Lock()
-	s.sent = append(s.sent, Sent{Conn: conn, At: at, ID: id, Serial: serial, Kind: kind, Err: err})
+	idx := len(s.sent)
+	gen := s.gen
+	s.sent = append(s.sent, Sent{Conn: conn, At: time.Now(), ID: id, Serial: serial, Kind: kind})
 	s.mu.Unlock()
+	_, err := c.Write(b)
+	if err != nil {
+		s.mu.Lock()
+		if s.gen == gen && idx < len(s.sent) {
+			s.sent[idx].Err = err
+		}
+		s.mu.Unlock()
+	}
 	return err
 }
 
@@ -271,6 +281,7 @@ func (s *Server) Snapshot() (reqs []*Req, sent []Sent, events []ConnEvent) {
 func (s *Server) ResetLog() {
 	s.mu.Lock()
 	s.reqs, s.sent, s.events = nil, nil, nil
+	s.gen++
 	s.mu.Unlock()
 }
 
